@@ -621,6 +621,14 @@ func runScenario(sc scenario, out sink, rnd func(int) int) (fails []fail) {
 			bad("public-leaks-secret", "%s = %q contains part of the secret %q", name, text, secret)
 		}
 	}
+	// the same identifiers in the shapes a pool hands out when match-password sessions are off
+	// (no [session_info] block), and degenerate ones: no public rendering may show the secret
+	for _, v := range []string{claim, wantSid + "#" + secret, o.Sinful + "#" + secret, "#" + secret, wantSid + "#" + sinfo, wantSid + "##" + secret, wantSid + "#" + secret + "]", wantSid + "#[" + secret} {
+		out.OracleCheck()
+		for _, f := range publicOracle(v) {
+			fails = append(fails, f)
+		}
+	}
 	out.OracleCheck()
 	if pub != wantSid+"#..." || p.PublicClaimID() != pub {
 		bad("public-form", "public claim id %q / %q, want %q", pub, p.PublicClaimID(), wantSid+"#...")
@@ -1158,7 +1166,73 @@ func randFrom(c *core.Ctx, alphabet string, maxLen int) string {
 	return string(b)
 }
 
+// publicOracle is the direct oracle for the secrecy clause on one claim id, whatever its shape (with
+// or without a [session_info] block) and whichever parser read it: every loggable rendering must equal
+// the reference redaction (the part in front of the delimiting '#' plus "#...", or nothing at all when
+// there is no such part) and must not contain the key material as a substring.
+func publicOracle(claim string) (fails []fail) {
+	bad := func(key, f string, a ...interface{}) { fails = append(fails, fail{key, fmt.Sprintf(f, a...)}) }
+	// key material, found independently of cedar's parsers: what follows the last '#' (behind the
+	// info block if there is one), and what the loose grammar takes as key
+	var keys []string
+	if h := strings.LastIndexByte(claim, '#'); h >= 0 {
+		after := claim[h+1:]
+		keys = append(keys, after)
+		if _, _, k, ok := specSplit(claim); ok {
+			keys = append(keys, k)
+		}
+	}
+	if parts := strings.SplitN(claim, "#", 3); len(parts) == 3 {
+		keys = append(keys, parts[2])
+	}
+	// reference redactions
+	refStrict := ""
+	if sid, _, _, ok := specSplit(claim); ok && sid != "" {
+		refStrict = sid + "#..."
+	}
+	refLoose := ""
+	head := claim
+	if i := strings.IndexByte(claim, '#'); i >= 0 {
+		head = claim[:i]
+	}
+	if head != "" {
+		refLoose = head + "#..."
+	}
+	type rendering struct{ name, text, ref string }
+	var rs []rendering
+	func() {
+		defer func() {
+			if p := recover(); p != nil {
+				bad("public-panic", "rendering the public form of %q panics: %v", claim, p)
+			}
+		}()
+		st := security.ParseClaimIDStrict(claim)
+		lo := security.ParseClaimID(claim)
+		rs = append(rs, rendering{"ParseClaimIDStrict(..).PublicClaimID()", st.PublicClaimID(), refStrict},
+			rendering{"ParseClaimID(..).PublicClaimID()", lo.PublicClaimID(), refLoose})
+		// the keys cedar's own parsers extract are key material too
+		keys = append(keys, st.SecSessionKey(), lo.SecSessionKey())
+	}()
+	for _, r := range rs {
+		if r.text != r.ref {
+			bad("public-form", "%s of %q is %q, the reference redaction is %q", r.name, claim, r.text, r.ref)
+		}
+		for _, k := range keys {
+			// short keys occur in the public part by chance; 8 characters and more do not
+			if len(k) >= 8 && strings.Contains(r.text, k) && !strings.Contains(strings.TrimSuffix(r.ref, "#..."), k) {
+				bad("public-leaks-secret", "%s of %q is %q and contains the key material %q", r.name, claim, r.text, k)
+				break
+			}
+		}
+	}
+	return
+}
+
 func parseCase(c *core.Ctx, claim string) {
+	for _, f := range publicOracle(claim) {
+		c.OracleFail(f.key, f.desc, map[string]interface{}{"kind": "parse", "claim": claim})
+	}
+	c.OracleCheck()
 	p := security.ParseClaimIDStrict(claim)
 	l := security.ParseClaimID(claim)
 	// SecSessionInfo()/SecSessionKey() are the raw fields; the sessionID field is visible through PublicClaimID
@@ -1420,6 +1494,11 @@ func importCase(c *core.Ctx, ft bool, claim string, io impOpts) {
 	if err != nil {
 		c.AddCase(head+"None)", desc)
 		c.Count("import-error")
+		// an error is logged by the caller: it must not quote the key material
+		c.OracleCheck()
+		if k := claim[strings.LastIndexByte(claim, '#')+1:]; len(k) >= 8 && strings.Contains(err.Error(), k) {
+			c.OracleFail("error-leaks-secret", fmt.Sprintf("the error returned for claim id %q quotes its key material: %v", claim, err), desc)
+		}
 		return
 	}
 	e, ok := security.VerifC16Entry(cache, sid)
@@ -1564,6 +1643,11 @@ func gen(c *core.Ctx) error {
 				claims = append(claims, s+"#1700000000#7#"+info+key)
 			}
 		}
+	}
+	for i := 0; i < 24; i++ {
+		sec := randFrom(c, "0123456789abcdef", 0) + fmt.Sprintf("%064x", c.Rng.Uint64())[32:] + fmt.Sprintf("%032x", c.Rng.Uint64())
+		s0 := sinfuls[i%len(sinfuls)]
+		claims = append(claims, s0+"#1700000000#"+strconv.Itoa(i)+"#"+sec, s0+"#"+sec, "#"+sec, sec, s0+"#1#2#[]"+sec, s0+"#1#2#"+sec+"#", s0+"#1#2#x[y]"+sec)
 	}
 	claims = append(claims, "", "#", "##", "#[", "#[]", "#[]k", "a#[]k", "a#[b]", "a#b#[c]d", "a#[b]#c", "a#[b#c]d", "[a]#b", "a#]b[", "nohash", "a#b", "a#b#c", "a#b#c#d", "a#[x]", "a#[x]k]", "a#[x]k[")
 	nRand := 300
@@ -1789,6 +1873,9 @@ func replay(raw json.RawMessage) error {
 			return fmt.Errorf("%s: %s", fs[0].key, fs[0].desc)
 		}
 	case "parse":
+		if fs := publicOracle(k.Claim); len(fs) > 0 {
+			return fmt.Errorf("%s: %s", fs[0].key, fs[0].desc)
+		}
 		p := security.ParseClaimIDStrict(k.Claim)
 		if sid, info, key, ok := specSplit(k.Claim); ok {
 			if p.SecSessionID() != sid || p.SecSessionInfo() != info || p.SecSessionKey() != key {
